@@ -85,6 +85,24 @@ pub fn families(tier: &str) -> Vec<Family> {
             reopen: true,
             make_read_only: false,
             max_len: u64::MAX,
+            far_clear: false,
+        },
+        big: false,
+    });
+    // (i') 32-bit bitfield word boundary: a log of 30 flushed blocks, then growth across index 32
+    // and clears that start in one word and end in the next (or far beyond the length)
+    f.push(Family {
+        name: "word-boundary (prefix: batch of 30, reopen)",
+        depth: if quick { 4 } else { 5 },
+        prefix: vec![Op::Batch((0..30).map(|i| p1(1 + (i % 3))).collect()), Op::Reopen],
+        alpha: Alpha {
+            sizes: vec![1],
+            batches: vec![vec![2, 0, 1]],
+            clears: Clears::Two,
+            reopen: true,
+            make_read_only: false,
+            max_len: u64::MAX,
+            far_clear: true,
         },
         big: false,
     });
@@ -102,6 +120,7 @@ pub fn families(tier: &str) -> Vec<Family> {
                 reopen: true,
                 make_read_only: false,
                 max_len: u64::MAX,
+                far_clear: false,
             },
             big: false,
         });
@@ -151,6 +170,30 @@ pub fn big_histories(tier: &str) -> Vec<Vec<Op>> {
             Op::Append(p1(1)),
             Op::Reopen,
         ]);
+    }
+    // (iii') hole widening across a bitfield page boundary: the tail of page 0 is emptied by one
+    // clear, another clear ends inside the emptied tail / at / just beyond the boundary; all
+    // ordered pairs, with and without a reopen in between
+    {
+        let b = 32768u64;
+        let n = (b + 100) as u32;
+        let cl: Vec<(u64, u64)> = vec![(b - 68, b), (b - 168, b - 58), (b - 10, b + 10), (b, b + 5), (b - 5, b), (b - 300, b - 200)];
+        let mut k = 0;
+        for (i, a) in cl.iter().enumerate() {
+            for (j, c) in cl.iter().enumerate() {
+                if i == j {
+                    continue;
+                }
+                k += 1;
+                if quick && k % 5 != 1 {
+                    continue;
+                }
+                out.push(vec![Op::BatchN(n), Op::Clear(a.0, a.1), Op::Clear(c.0, c.1), Op::Reopen, Op::Append(p1(2))]);
+                if !quick {
+                    out.push(vec![Op::BatchN(n), Op::Clear(a.0, a.1), Op::Reopen, Op::Clear(c.0, c.1), Op::Reopen]);
+                }
+            }
+        }
     }
     // (iv) one entry larger than the 65536-byte oplog threshold: forces the early-flush branch
     out.push(vec![
